@@ -84,7 +84,7 @@ class FakeMol(object):
         return np.zeros((1, 1))
 
 
-def make_world(env, ng, level, nldf, blocks=None, sdmx=False):
+def make_world(env, ng, level, nldf, blocks=None, sdmx=False, spin_symmetric=False):
     """symbolic AO values, weights; returns (mol, grids, NI factory)"""
     numint = env.m.numint
     AO = env.arr("ao", (4, ng, NAO), lo="-4", hi="4")
@@ -278,16 +278,26 @@ def make_world(env, ng, level, nldf, blocks=None, sdmx=False):
             for g in range(n):
                 args = [r[s, c, g] for s in range(ns) for c in range(nrow)] + ([] if f is None else [f[s, i, g] for s in range(ns) for i in range(f.shape[1])])
                 dens = sum((r[s, 0, g] for s in range(ns)), env.const(0))
-                exc[g] = leaf.val(args)
+                if spin_symmetric and ns == 2:
+                    # a functional that does not care which channel is called "a": F(a, b) = (L(a, b) + L(b, a)) / 2 for the leaf L
+                    nfe = 0 if f is None else f.shape[1]
+                    perm = [nrow + c for c in range(nrow)] + list(range(nrow)) + [2 * nrow + nfe + i for i in range(nfe)] + [2 * nrow + i for i in range(nfe)]
+                    sw = [args[j] for j in perm]
+                    val = (leaf.val(args) + leaf.val(sw)) / 2
+                    grad = lambda k_: (leaf.grad(args, k_) + leaf.grad(sw, perm[k_])) / 2
+                else:
+                    val = leaf.val(args)
+                    grad = lambda k_: leaf.grad(args, k_)
+                exc[g] = val
                 k = 0
                 for s in range(ns):
                     for c in range(nrow):
-                        vxc[s, c, g] = dens * leaf.grad(args, k) + (exc[g] if c == 0 else 0)
+                        vxc[s, c, g] = dens * grad(k) + (exc[g] if c == 0 else 0)
                         k += 1
                 if f is not None:
                     for s in range(ns):
                         for i in range(f.shape[1]):
-                            vn[s, i, g] = dens * leaf.grad(args, k)
+                            vn[s, i, g] = dens * grad(k)
                             k += 1
             vs = None
             if sdmx_feat is not None:
